@@ -10,6 +10,8 @@ pub enum Arg {
     G(u64),
     B(u8, u8, u8, u8),
     S(u16, u16),
+    /// (item slot, guid) for the per-slot guid array
+    SG(u8, u64),
 }
 
 #[derive(Clone, Debug, PartialEq)]
@@ -56,11 +58,11 @@ pub fn um_bset(exp: Exp, m: AnyBuilder, name: &str, a: &Arg) -> Result<AnyBuilde
     }
 }
 
-pub fn um_get(exp: Exp, m: &AnyMask, name: &str) -> Option<Got> {
+pub fn um_get(exp: Exp, m: &AnyMask, name: &str, slot: u8) -> Option<Got> {
     match exp {
-        Exp::Vanilla => um_get_vanilla(m, name),
-        Exp::Tbc => um_get_tbc(m, name),
-        Exp::Wrath => um_get_wrath(m, name),
+        Exp::Vanilla => um_get_vanilla(m, name, slot),
+        Exp::Tbc => um_get_tbc(m, name, slot),
+        Exp::Wrath => um_get_wrath(m, name, slot),
     }
 }
 
